@@ -57,6 +57,29 @@ QuantileOf(sv, q, m) ==
                   \o (IF lo + 1 <= nn - 1 THEN <<EQ(QuantAtOf(sv, lo, lo + 1, <<0, 1>>, m))>> ELSE <<>>)
              ELSE main
 
+\* q moved off a grid point by an amount EPS that is far below the grid spacing and far above rounding (the replay
+\* uses 2e-11): where (n-1)q is an integer k the neighbours are then k, k+1 (sg = +1) or k-1, k (sg = -1) and
+\* NOT the single rank k - a tolerance on the fractional index wider than rounding would collapse them; elsewhere
+\* nothing changes.  (The linear method moves by EPS times a gap: not compared.)
+NearMethods == {"lower", "higher", "midpoint"}
+QuantileNear(sv, q, sg, m) ==
+    LET nn == Len(sv) IN
+    IF nn = 0 THEN ENull
+    ELSE LET num == (nn - 1) * q[1]
+             lo  == num \div q[2]
+             exact == num % q[2] = 0
+         IN  IF ~exact THEN EQ(QuantAtOf(sv, lo, lo + 1, <<1, 2>>, m))
+             ELSE IF sg = 1 THEN (IF lo + 1 <= nn - 1 THEN EQ(QuantAtOf(sv, lo, lo + 1, <<1, 2>>, m)) ELSE EQ(QuantAtOf(sv, lo, lo, <<0, 1>>, m)))
+             ELSE (IF lo >= 1 THEN EQ(QuantAtOf(sv, lo - 1, lo, <<1, 2>>, m)) ELSE EQ(QuantAtOf(sv, lo, lo, <<0, 1>>, m)))
+DefQuantileNear(q, sg, m) == QuantileNear(SV, q, sg, m)
+\* the moved q stays inside [0, 1]
+NearOK(q, sg) == IF sg = 1 THEN q[1] < q[2] ELSE q[1] > 0
+\* moving q by less than the spacing of the indices never changes a neighbour by more than one rank
+NearIsNeighbour ==
+    \A q \in Qs, sg \in {0 - 1, 1}, m \in {"lower", "higher"} :
+        (NearOK(q, sg) /\ Len(SV) > 0) =>
+            \E r \in 0..(Len(SV) - 1) : DefQuantileNear(q, sg, m) = EQ(QInt(SV[r + 1]))
+
 At(r) == SV[r + 1]
 QuantAt(lo, hi, fr, m) == QuantAtOf(SV, lo, hi, fr, m)
 DefQuantile(q, m) == QuantileOf(SV, q, m)
